@@ -266,7 +266,9 @@ class BeautifulSoupHTMLParser(HTMLParser, DetectsXMLParsedAsHTML):
                     continue
                 try:
                     data = bytearray([real_name]).decode(encoding)
-                except UnicodeDecodeError:
+                except UnicodeError:
+                    # Usually UnicodeDecodeError, but a few codecs
+                    # (e.g. punycode) raise plain UnicodeError.
                     pass
         if not data:
             try:
